@@ -299,25 +299,51 @@ def keyword_skeleton(model: Model, run: Run, folder: Folder, cname: str) -> None
     code = Lang(build(used[0].pattern, used[0].flags, "match"))
     kws: List[Tuple[str, str]] = []
 
-    def literal_stream(fi_, depth: int = 0):
-        """string literals / f-strings in source order, with the literals of a module-level helper spliced in where it is called"""
+    def literal_stream(fi_, depth: int = 0, subst=None):
+        """string literals / f-strings in source order, with the literals of a module-level helper spliced in where it is called;
+        a helper parameter that the call binds to a string literal (`_encode_flag("OBSOLETE", ...)` with the template
+        f" {keyword}") reads as that literal"""
+        subst = subst or {}
         nodes = sorted((x for x in ast.walk(fi_.node) if isinstance(x, (ast.JoinedStr, ast.Call)) or (isinstance(x, ast.Constant) and isinstance(x.value, str))),
                        key=lambda x: (x.lineno, x.col_offset))
         inner = {id(v) for x in nodes if isinstance(x, ast.JoinedStr) for v in ast.walk(x) if v is not x}
         for x in nodes:
             if isinstance(x, ast.Call):
+                if id(x) in inner:
+                    continue
+                hf = None
                 if isinstance(x.func, ast.Name) and depth < 3:
                     q_ = model.resolve_name(SCHEMA, x.func.id)
                     hf = model.functions.get(q_) if q_ else None
-                    if hf is not None and hf.cls is None and not isinstance(hf.node, ast.Lambda) and hf is not fi_:
-                        yield from literal_stream(hf, depth + 1)
+                    if hf is not None and (hf.cls is not None or isinstance(hf.node, ast.Lambda) or hf is fi_):
+                        hf = None
+                    ps = hf.params() if hf is not None else []
                 elif isinstance(x.func, ast.Attribute) and isinstance(x.func.value, ast.Name) and x.func.value.id == "self" and depth < 3:
                     hf = model.find_method(q, x.func.attr)        # a formatting method of the class (or of a mixin it inherits)
-                    if hf is not None and not isinstance(hf.node, ast.Lambda) and hf is not fi_ and hf.module == SCHEMA:
-                        yield from literal_stream(hf, depth + 1)
+                    if hf is not None and (isinstance(hf.node, ast.Lambda) or hf is fi_ or hf.module != SCHEMA):
+                        hf = None
+                    ps = hf.params()[1:] if hf is not None else []
+                if hf is not None:
+                    sub2 = {}
+                    for p_, a_ in list(zip(ps, x.args)) + [(k.arg, k.value) for k in x.keywords if k.arg]:
+                        if isinstance(a_, ast.Constant) and isinstance(a_.value, str):
+                            sub2[p_] = a_.value
+                        elif isinstance(a_, ast.Name) and a_.id in subst:
+                            sub2[p_] = subst[a_.id]
+                    yield from literal_stream(hf, depth + 1, sub2)
                 continue
             if id(x) in inner and isinstance(x, ast.Constant):
                 continue
+            if subst and isinstance(x, ast.JoinedStr):
+                vals = []
+                for v in x.values:
+                    if isinstance(v, ast.FormattedValue) and isinstance(v.value, ast.Name) and v.value.id in subst and v.format_spec is None and v.conversion == -1:
+                        v = ast.Constant(value=subst[v.value.id])
+                    if isinstance(v, ast.Constant) and vals and isinstance(vals[-1], ast.Constant):
+                        vals[-1] = ast.Constant(value=vals[-1].value + v.value)
+                    else:
+                        vals.append(v)
+                x = ast.copy_location(ast.JoinedStr(values=vals) if not (len(vals) == 1 and isinstance(vals[0], ast.Constant)) else vals[0], x)
             yield x
     for n in literal_stream(sfi):
         text = ""
